@@ -16,6 +16,7 @@ import (
 	"os"
 	"os/exec"
 	"path/filepath"
+	"runtime/debug"
 	"sort"
 	"strings"
 	"time"
@@ -215,15 +216,23 @@ func main() {
 	detlog := flag.Bool("detlog", false, "record a per-execution signature log (determinism self-test)")
 	replayDir := flag.String("replay-dir", "", "where to write replay files")
 	indices := flag.String("indices", "", "refdigest mode: comma-separated program indices, in execution order")
+	skip := flag.String("skip", "", "worker mode: comma-separated program indices to skip (their reference execution kills the process)")
 	flag.Parse()
 
 	log.DefaultLogger = log.NewCallbackLogger(func(string, string, map[string]interface{}) {})
 	stdlog.SetOutput(io.Discard)
+	debug.SetMaxStack(128 << 20) // a runaway recursion in the compiler should die quickly, not after 1 GB
 
 	out2 := out
 	switch *mode {
 	case "worker":
-		res := runWorker(*seed, *worker, *workers, *execs, *maxProgs, *budget, *cfgName, *detlog, *replayDir)
+		for _, tok := range strings.Split(*skip, ",") {
+			var i int
+			if _, err := fmt.Sscan(tok, &i); err == nil {
+				skipIdx[i] = true
+			}
+		}
+		res := runWorker(*seed, *worker, *workers, *execs, *maxProgs, *budget, *cfgName, *detlog, *replayDir, *out)
 		b, _ := json.Marshal(res)
 		if *out == "" {
 			os.Stdout.Write(b)
@@ -283,7 +292,9 @@ func main() {
 	}
 }
 
-func runWorker(master uint64, worker, workers, execs, maxProgs int, budget float64, cfgName string, detlog bool, replayDir string) *WorkerResult {
+var skipIdx = map[int]bool{}
+
+func runWorker(master uint64, worker, workers, execs, maxProgs int, budget float64, cfgName string, detlog bool, replayDir string, outPath string) *WorkerResult {
 	start := time.Now()
 	res := &WorkerResult{Worker: worker, Stats: newStats(), FirstIndex: -1, RefDigests: map[string]string{}}
 	stats := res.Stats
@@ -299,8 +310,23 @@ func runWorker(master uint64, worker, workers, execs, maxProgs int, budget float
 			res.FirstIndex = idx
 		}
 		res.LastIndex = idx
+		if skipIdx[idx] {
+			stats.Probes["programs_skipped_reference_crashes_process"]++
+			continue
+		}
 		p := programFor(master, idx, cfgName)
 		stats.Programs++
+		writeMarker := func(e int, cfg ExecCfg) {
+			if outPath == "" {
+				return
+			}
+			// marker for the driver: if this process dies, this is what killed it
+			cur := &Replay{Property: "C14", MasterSeed: master, ProgIndex: idx, ExecIndex: e, Program: p.ToJSON(), Exec: cfg,
+				Violation: &Violation{Class: "process_crash", OpIndex: -1}, FindingKey: "process_crash"}
+			b, _ := json.Marshal(cur)
+			_ = os.WriteFile(outPath+".current", b, 0o644)
+		}
+		writeMarker(-1, ExecCfg{})
 		ref, err := computeReference(p)
 		if err != nil {
 			stats.ProgramsDiscarded++
@@ -317,6 +343,7 @@ func runWorker(master uint64, worker, workers, execs, maxProgs int, budget float
 				break
 			}
 			cfg := genExecCfg(p, simrt.Derive(progSeed, uint64(e)))
+			writeMarker(e, cfg)
 			v, ex := runExec(p, ref, cfg, stats)
 			stats.Executions++
 			stats.Ops += len(cfg.Ops)
@@ -375,6 +402,9 @@ func runWorker(master uint64, worker, workers, execs, maxProgs int, budget float
 	sort.Slice(res.Sigs, func(i, j int) bool { return res.Sigs[i] < res.Sigs[j] })
 	res.WallS = time.Since(start).Seconds()
 	_ = replayDir
+	if outPath != "" {
+		_ = os.Remove(outPath + ".current")
+	}
 	return res
 }
 
@@ -440,6 +470,8 @@ func runReplay(file string) int {
 		fmt.Printf("REPLAY: reference no longer compiles (%v): cannot judge\n", err)
 		return 2
 	}
+	fmt.Println("REPLAY-PHASE reference-ok") // a crash after this line happened in the simulated execution only
+	os.Stdout.Sync()
 	if rp.Violation.Class == "uncontrolled_nondeterminism" {
 		for i := 0; i < 200; i++ {
 			ref2, err := computeReference(p)
